@@ -13,10 +13,6 @@ def finding(props, rule, key, what, sig=None, n=None):
 finding(["C07","C06"], "M2", "tensor.(StdEng).*[incr,*one-element]",
         "E.<Op>Incr scalar-scalar arm computes into operand a before adding: Add([2],[3],WithIncr([10])) leaves a=[5]",
         "writes operand A, which is not the destination of incr mode", 37)
-for sig in ["returned buffer holds A, want same:Op(A,S)", "returned buffer holds A, want same:Op(S,A)"]:
-    finding(["C07","C11"], "M2", "tensor.(StdEng).*Scalar[unsafe,scalar-left,*one-element]",
-            "comparison with the scalar on the left, unsafe, one-element tensor: E.<Cmp>Same(S,T) writes the scalar's header and nothing copies it back: Gt(5,[3],UseUnsafe()) returns [3]",
-            sig, 42)
 for sig in ["E.OpIter: buffer F1 is indexed through iterator bit, which belongs to A",
             "E.OpIter: buffer R is indexed through iterator bit, which belongs to A",
             "E.OpSameIter: buffer F1 is indexed through iterator bit, which belongs to A",
@@ -82,6 +78,7 @@ finding(["C14"], "F1", "tensor.numpyDtypes[Int32]", "GOARCH=386: Int32 is writte
 finding(["C14"], "F1", "tensor.numpyDtypes[Uint32]", "GOARCH=386: Uint32 is written as u4, which the reader maps to Uint", "Uint32->u4->Uint", 43)
 
 FIXED = [
+ {"property":"C11","commit":"74195dd","rule":"M2","key":"tensor.(StdEng).*Scalar[unsafe,scalar-left,*one-element]","what":"fixed: property=C11 74195dd comparison with the scalar on the left, unsafe, one-element tensor: E.<Cmp>Same(S,T) wrote the scalar's header and nothing copied it back: Gt(5,[3],UseUnsafe()) returned [3] (DESIGN finding 42)"},
  {"property":"C07","commit":"abfb221","rule":"M2","key":"tensor.(StdEng).*Between*[unsafe*","what":"fixed: property=C07 abfb221 MinBetween/MaxBetween(+Scalar) with UseUnsafe(): the result tensor was created before the mode switch, so the unsafe case was unreachable and the call panicked \"Unreachable\" (DESIGN finding 34)"},
  {"property":"C19","commit":"393a6d7","rule":"O8","key":"tensor.(*Dense).ShallowClone#store1","what":"fixed: property=C19 393a6d7 ShallowClone shared old (and transposeWith) with the source: s := a.ShallowClone(); s.UT(); a.UT() put one slice in the pool twice (DESIGN finding 33)"},
  {"property":"C12","commit":"06dec87","rule":"P3","key":"tensor.(StdEng).Map","what":"fixed: property=C12 06dec87 StdEng.Map with a caller-supplied reuse tensor mapped over reuse's previous contents: Apply(x2, WithReuse([10,20,30,40])) on [1 2 3 4] = [20 40 60 80] (DESIGN finding 22, reuse part; the incr part stays a known finding)"},
